@@ -713,6 +713,11 @@ class Inliner:
                     b = self.bind(h[0], h[1], h[2], n)
                     if b is not None and (_as_expression(self.instantiate(h[0], b[0])) is None or b[1]):
                         needs = True
+        # ... or the comprehension runs over a generator helper (then the loop form lets the helper's body be spliced in)
+        if isinstance(gen.iter, ast.Call):
+            gh = self.helper_for(gen.iter, module, cls)
+            if gh is not None and qualname_of(gh[0]) not in stack and _contains(gh[0].body, (ast.Yield, ast.YieldFrom)):
+                needs = True
         if not needs:
             return None
         mod = getattr(st, "_module", None)
